@@ -51,11 +51,16 @@ fn run_case(_kind: &str, idx: u64, rng: &mut Rng, mon: &mut Mon, _tier: Tier) {
     let focus = rng.usize(7); // 6 = all joints random
     for j in 0..6 {
         // (tiny arcs only on the deciding joint: elsewhere they would make the whole vector inconclusive)
-        let cls = if focus < 6 && j != focus { *rng.pick(&[0, 1, 2, 3, 4, 5, 6, 7, 9]) } else { rng.usize(10) };
-        let (f, t) = crate::gen::limit_pair(rng, cls, rng.clone().range(-PI, PI));
+        let cls = if focus < 6 && j != focus { *rng.pick(&[0, 1, 2, 3, 4, 5, 6, 7, 9, 12]) } else { rng.usize(13) };
+        let around = rng.range(-PI, PI);
+        let (f, t) = crate::gen::limit_pair(rng, cls, around);
         from[j] = f;
         to[j] = t;
         ang[j] = rng.range(-4.0 * PI, 4.0 * PI);
+        // (the tiny forbidden gap of class 11 is centred on `around`: most of its angles are placed right there)
+        if cls == 11 && rng.bool(0.7) {
+            ang[j] = around + 2.0 * PI * rng.int(-2, 2) as f64;
+        }
         if focus < 6 && j != focus {
             // place the angle inside the arc (if the arc has an inside with margin)
             let (v, d) = arc_contains(f, t, ang[j]);
